@@ -22,6 +22,7 @@ def build_tonl(sc, sid):
     q = "" if pkg == "d" else "d."
     files = []
     tags = {}
+    spells = set()
     n = 100
     for fidx, fl in enumerate(sc["files"], 1):
         name = "%s/f%d%s.go" % (pkg, fidx, "_test" if fl["test"] else "")
@@ -29,6 +30,11 @@ def build_tonl(sc, sid):
         for cidx, c in enumerate(fl["conts"], 1):
             n += 1
             u, ctx = c["use"], c["ctx"]
+            sp = c.get("sp", "direct")
+            spells.add(sp)
+            TT = {"direct": q + "TT", "alias": "TA", "alias3": "q.TA", "ptralias": "TP", "rename": "dd.TT" if pkg != "d" else "TT",
+                  "paren": "(" + q + "TT)"}[sp]
+            PTT = "TP" if sp == "ptralias" else "*" + TT
             key = (fidx, cidx)
             doc = ["// @testonly"] if ctx in ("tofunc", "tometh") else []
             params = ""
@@ -37,17 +43,17 @@ def build_tonl(sc, sid):
             recv = "(h%d *H) " % n if ctx in ("pmeth", "tometh") else ""
             if u == "fieldTT":
                 out.add("type H%d struct {" % n)
-                out.tagged(key, "f%d %sTT" % (n, q))
+                out.tagged(key, "f%d %s" % (n, TT))
                 out.add("}", "")
                 continue
             if u == "paramTT":
                 out.add(*doc)
-                out.tagged(key, "func %sfn%d(x%d %sTT) {" % (recv, n, n, q), "")
+                out.tagged(key, "func %sfn%d(x%d %s) {" % (recv, n, n, TT), "")
                 out.add("}", "")
                 continue
             if u == "resultTT":
                 out.add(*doc)
-                out.tagged(key, "func %sfn%d() (y%d *%sTT) {" % (recv, n, n, q), "")
+                out.tagged(key, "func %sfn%d() (y%d %s) {" % (recv, n, n, PTT), "")
                 out.add("\treturn nil", "}", "")
                 continue
             out.add(*doc)
@@ -59,9 +65,9 @@ def build_tonl(sc, sid):
                 "callPF": "_ = %sPF(%d)" % (q, n),
                 "callPM": "_ = s%d.PM(%d)" % (n, n),
                 "shadow": "_ = TF(%d)" % n,
-                "litTT": "_ = %sTT{X: %d}" % (q, n),
-                "varTT": "var v%d %sTT" % (n, q),
-                "varPtrTT": "var v%d *%sTT" % (n, q),
+                "litTT": "_ = %s{X: %d}" % (TT, n),
+                "varTT": "var v%d %s" % (n, TT),
+                "varPtrTT": "var v%d %s" % (n, PTT),
                 "litTT2": "_ = %sTT2{X: %d}" % (q, n),
                 "litOTT": "_ = o.TT{X: %d}" % n,
             }[u]
@@ -78,6 +84,10 @@ def build_tonl(sc, sid):
         files.append(out)
     h = Out("%s/zz_handles.go" % pkg, pkg)
     h.add("// H is a local receiver type.", "type H struct{}", "", "var _ %sS" % q, "")
+    if "alias" in spells:
+        h.add("type TA = %sTT" % q, "")
+    if "ptralias" in spells:
+        h.add("type TP = *%sTT" % q, "")
     files.append(h)
     gofiles = []
     uses_o = False
@@ -94,6 +104,8 @@ def build_tonl(sc, sid):
     pkgs = [{"path": "m/d", "name": "d", "files": [{"name": "d/d.go", "src": tonl_d(sc["ann"])}]}]
     if uses_o:
         pkgs.append({"path": "m/o", "name": "o", "files": [{"name": "o/o.go", "src": O_SRC}]})
+    if "alias3" in spells:
+        pkgs.append({"path": "m/q", "name": "q", "files": [{"name": "q/q.go", "src": 'package q\n\nimport "m/d"\n\ntype TA = d.TT\n'}]})
     if pkg == "d":
         pkgs[0]["files"] += gofiles
     else:
@@ -102,6 +114,7 @@ def build_tonl(sc, sid):
     for f, i, code in sc["expect"]:
         fn, ln, _ = tags[(f, i)]
         expect.add((fn, ln, code))
+    expect |= locals().get("extra_expect", set())
     return {"id": sid, "pkgs": pkgs}, expect, tags
 
 
@@ -127,6 +140,7 @@ def build_pkgo(sc, sid):
     q = "" if pkg == "d" else "d."
     files = []
     tags = {}
+    spells = set()
     n = 100
     for fidx, refs in enumerate(sc["files"], 1):
         out = Out("%s/f%d.go" % (pdir, fidx), pname)
@@ -134,17 +148,24 @@ def build_pkgo(sc, sid):
         for cidx, r in enumerate(refs, 1):
             n += 1
             key = (fidx, cidx)
+            r, _, sp = r.partition("@")
+            sp = sp or "direct"
+            spells.add(sp)
+            PT = {"direct": q + "PT", "alias": "TA", "alias3": "q.TA", "ptralias": "TP", "rename": "dd.PT", "paren": "(" + q + "PT)"}[sp]
+            PPT = "TP" if sp == "ptralias" else "*" + PT
+            if sp == "ptralias" and r in ("typeVar", "typeField", "typeParam"):
+                PT = "TP"
             if r == "typeField":
                 out.add("type H%d struct {" % n)
-                out.tagged(key, "f%d %sPT" % (n, q))
+                out.tagged(key, "f%d %s" % (n, PT))
                 out.add("}", "")
                 continue
             if r == "typeParam":
-                out.tagged(key, "func fn%d(x%d %sPT) {" % (n, n, q), "")
+                out.tagged(key, "func fn%d(x%d %s) {" % (n, n, PT), "")
                 out.add("}", "")
                 continue
             if r == "typeResult":
-                out.tagged(key, "func fn%d() (y%d *%sPT) {" % (n, n, q), "")
+                out.tagged(key, "func fn%d() (y%d %s) {" % (n, n, PPT), "")
                 out.add("\treturn nil", "}", "")
                 continue
             params = "s%d %sS" % (n, q) if r in ("methCall", "methValue") else ""
@@ -155,8 +176,8 @@ def build_pkgo(sc, sid):
                 "funcValue": "f%d := %sPF" % (n, q),
                 "methCall": "_ = s%d.PM(%d)" % (n, n),
                 "methValue": "f%d := s%d.PM" % (n, n),
-                "typeLit": "_ = %sPT{X: %d}" % (q, n),
-                "typeVar": "var v%d %sPT" % (n, q),
+                "typeLit": "_ = %s{X: %d}" % (PT, n),
+                "typeVar": "var v%d %s" % (n, PT),
                 "typeLit2": "_ = %sPT2{X: %d}" % (q, n),
                 "plain": "_ = %sQF(%d) + %sQ{X: %d}.X" % (q, n, q, n),
             }[r]
@@ -169,6 +190,14 @@ def build_pkgo(sc, sid):
                 out.add("\t" + l)
             out.add("}", "")
         files.append(out)
+    disallowed = bool(sc["expect"])
+    h = Out("%s/zz_handles.go" % pdir, pname)
+    h.auto_imports = pkg != "d"
+    h.add("// the using package imports d directly (annotations are visible through direct imports only)", "var _ %sQ" % q, "")
+    if spells & {"alias", "ptralias"}:
+        # the alias declaration is itself a reference to d.PT from the using package (first use in its file)
+        h.tagged("aliasdecl", "type TA = %sPT" % q if "alias" in spells else "type TP = *%sPT" % q, "")
+    files.append(h)
     gofiles = []
     for out in files:
         src = out.src()
@@ -176,6 +205,13 @@ def build_pkgo(sc, sid):
         for k, (ln, t) in out.tags.items():
             tags[k] = (out.name, ln, t)
     pkgs = [{"path": "m/d", "name": "d", "files": [{"name": "d/d.go", "src": pkgo_d(sc["lines"])}]}]
+    extra_expect = set()
+    if "aliasdecl" in tags and disallowed:
+        extra_expect.add((tags["aliasdecl"][0], tags["aliasdecl"][1], "PKGO01"))
+    if "alias3" in spells:
+        pkgs.append({"path": "m/q", "name": "q", "files": [{"name": "q/q.go", "src": 'package q\n\nimport "m/d"\n\ntype TA = d.PT\n'}]})
+        if sc["al"] != "none":
+            extra_expect.add(("q/q.go", 5, "PKGO01"))  # q itself is never on the allow-lists of the spell mode
     if pkg == "d":
         pkgs[0]["files"] += gofiles
     else:
@@ -184,4 +220,5 @@ def build_pkgo(sc, sid):
     for f, i, code in sc["expect"]:
         fn, ln, _ = tags[(f, i)]
         expect.add((fn, ln, code))
+    expect |= locals().get("extra_expect", set())
     return {"id": sid, "pkgs": pkgs}, expect, tags
